@@ -10,6 +10,5 @@ var NotApplicable = map[string]string{
 // Pending are properties whose checks are designed (DESIGN.md section 4) but not built yet; they are
 // listed as not applicable until a check exists, so the manifest never claims an unbuilt check.
 var Pending = map[string]string{
-	"C13": "check designed in DESIGN.md section 4 but not built yet in this round; not claimed until it exists",
 	"C17": "check designed in DESIGN.md section 4 but not built yet in this round; not claimed until it exists",
 }
